@@ -86,6 +86,9 @@ func encodeEvents(c *Ctx, p *Profile, sch *Schema, id *int, perType int, perFiel
 			// every hosted message type, every field alone, both byte orders
 			for _, sl := range st.Slots {
 				pm := p.by[sl.M]
+				if pm == nil {
+					continue // a container member that is not a known message: C15 reports it
+				}
 				for _, pf := range pm.Fields {
 					for a := 0; a < 2; a++ {
 						emit(st.T, a, sl.M, pf.S, fmt.Sprintf("%s field %d alone", pm.Name, pf.N))
